@@ -475,9 +475,11 @@ Section Dispatch.
       + intro y. unfold ChainInv.ifl. rewrite EI1. apply in_map_fst_aremove.
       + intros y w'. rewrite EI2. intro Hy. apply (In_aremove _ _ _ _ Hy).
       + intro i. apply SL_sent, SL_T, TF.
-      + apply (reqs_ok_forall (fun id' dl => id' = id -> ChainInv.has_cancel id _ \/ (dl <= T)%N)).
-        intros id' dl tr b Hm ->. right.
-        pose proof (ChainInv.x_t0 _ _ _ _ _ X id dl tr b w Hm Hin). lia.
+      + eapply ChainCross.reqs_ok_mono;
+          [|apply (reqs_ok_forall (fun id' dl => id' = id -> (dl <= T)%N))].
+        * cbn. intros id' dl rest Hd Heq. right. apply Hd, Heq.
+        * intros id' dl tr b Hm ->.
+          pose proof (ChainInv.x_t0 _ _ _ _ _ X id dl tr b w Hm Hin). lia.
       + intros en He Heq. right.
         assert (Hk : In id (map fst (Server.s_timers sv))).
         { rewrite (ChainInv.x_keys _ _ _ _ _ X). rewrite <- Heq. apply in_map, He. }
@@ -536,5 +538,85 @@ Section Dispatch.
       destruct (CI_pump_write _ _ _ H1 E2) as [H2 _]. split; [exact H2|discriminate].
     - destruct (CI_pump_read _ _ _ H E1) as [H1 _].
       destruct (CI_pump_write _ _ _ H1 E2) as [H2 _]. eapply IH; eassumption.
+  Qed.
+
+  (* ---- a poll that goes idle has written every queued cancellation ---- *)
+  Lemma CI_pwc_drained c r c' :
+    CI c -> poll_write_cancel ctp c = (r, c') -> idle r -> cancels c' = [].
+  Proof.
+    intros H E I. apply poll_write_cancel_inv in E.
+    destruct (CI_ensure_writeable c H) as (c1 & E1 & H1 & F1).
+    destruct E as [r1 s1 E1' Hr|r1 s1 s2 E1' E2 Hr|s1 id e s2 w s3 E1' E2 E3].
+    - rewrite E1 in E1'. injection E1' as <- <-. discriminate.
+    - eapply ncl_drained; [|exact E2|exact Hr]. lia.
+    - exfalso. destruct w; destruct I; discriminate.
+  Qed.
+
+  Lemma CI_pw_drained c r c' :
+    CI c -> pump_write ctp c = (r, c') -> idle r -> cancels c' = [].
+  Proof.
+    intros H E I. apply pump_write_inv in E.
+    destruct E as [a s1 E1|u s1 E1|r1 s1 a s2 E1 I1 E2|r1 s1 u s2 E1 I1 E2
+                  |r1 s1 r2 s2 id s3 E1 I1 E2 I2 E3|s1 s2 s3 x s4 E1 E2 E3 E4
+                  |r1 s1 r2 s2 s3 x s4 E1 I1 E2 I2 I12 E3 E4];
+      try (exfalso; destruct I; discriminate).
+    - destruct (CI_poll_write_request _ _ _ H E1) as [H1 _].
+      pose proof (TFrame_poll_expired s2) as F3. rewrite E3 in F3. cbn [snd] in F3.
+      pose proof (XFrame_do_close ctp _ _ _ E4) as F4.
+      rewrite (xf_cancels _ _ F4), (tf_cancels _ _ F3).
+      eapply CI_pwc_drained; [exact H1|exact E2|left; reflexivity].
+    - destruct (CI_poll_write_request _ _ _ H E1) as [H1 _].
+      pose proof (TFrame_poll_expired s2) as F3. rewrite E3 in F3. cbn [snd] in F3.
+      pose proof (XFrame_do_flush ctp _ _ _ E4) as F4.
+      rewrite (xf_cancels _ _ F4), (tf_cancels _ _ F3).
+      eapply CI_pwc_drained; [exact H1|exact E2|exact I2].
+  Qed.
+
+  Lemma CI_rl_drained f : forall c c',
+    CI c -> run_loop ctp f c = (RunPending, c') -> cancels c' = [].
+  Proof.
+    induction f as [|f IH]; intros c c' H E; [cbn in E; discriminate|].
+    apply run_loop_inv in E. remember RunPending as rr eqn:Er.
+    destruct E as [a s1 E1|rd s1 a s2 E1 N1 E2|s1 wr s2 E1 E2 N2|rd s1 s2 E1 D1 E2 L2
+                  |s1 wr s2 E1 E2 D2|rd s1 wr s2 r s3 E1 E2 D E3]; try discriminate.
+    - destruct (CI_pump_read _ _ _ H E1) as [H1 _].
+      eapply CI_pw_drained; [exact H1|exact E2|]. destruct D2 as [-> |[-> _]]; [right|left]; reflexivity.
+    - subst r. destruct (CI_pump_read _ _ _ H E1) as [H1 _].
+      destruct (CI_pump_write _ _ _ H1 E2) as [H2 _]. eapply IH; eassumption.
+  Qed.
+
+  (* ---- the PollDispatch op ---- *)
+  Variable fuel_of : cst -> nat.
+
+  Lemma CI_step_dispatch c c' os :
+    CI c -> terminal c = None -> finished c = None ->
+    step ctp fuel_of c PollDispatch = (c', os) ->
+    exists lg r a b, os = [OCalls lg; ODisp r; OGauge a b] /\
+      match r with
+      | DReady _ => True
+      | DPending => CI c' /\ terminal c' = None /\ finished c' = None /\ cancels c' = []
+      | DFuel => CI c' /\ terminal c' = None /\ finished c' = None
+      end.
+  Proof.
+    intros H Ht Hf E. cbn [step] in E. rewrite Hf in E.
+    rewrite (l_dropped _ (ci_live c H)) in E.
+    set (c0 := upd_tr c (tr c) (fused c) []) in *.
+    assert (H0 : CI c0) by (unfold c0; rewrite (ci_fused c H); apply CI_log, H).
+    unfold poll_dispatch in E. change (terminal c0) with (terminal c) in E. rewrite Ht in E.
+    destruct (run_loop ctp (fuel_of c0) c0) as [rr c1] eqn:ER.
+    destruct (CI_run_loop _ _ _ _ H0 ER) as [H1 NE].
+    pose proof (PFrame_run_loop ctp _ _ _ _ ER) as PF.
+    assert (T1 : terminal c1 = None) by (rewrite (pf_terminal _ _ PF); exact Ht).
+    assert (F1 : finished c1 = None) by (rewrite (pf_finished _ _ PF); exact Hf).
+    destruct rr as [|a| |].
+    - injection E as <- <-. do 4 eexists. split; [reflexivity|exact I].
+    - exfalso. eapply NE. reflexivity.
+    - injection E as <- <-. do 4 eexists. split; [reflexivity|].
+      rewrite <- (ci_fused _ H1). split; [|split; [exact T1|split; [exact F1|]]].
+      + rewrite (ci_fused _ H1). apply CI_log, H1.
+      + cbn [cancels upd_tr]. eapply CI_rl_drained; eassumption.
+    - injection E as <- <-. do 4 eexists. split; [reflexivity|].
+      rewrite <- (ci_fused _ H1). split; [|split; [exact T1|exact F1]].
+      rewrite (ci_fused _ H1). apply CI_log, H1.
   Qed.
 End Dispatch.
